@@ -145,6 +145,10 @@ def run(ctx):
         if i % 3 == 0:      # mix in plain steps with errors and panics
             for k in range(0, n, 3):
                 runs[k] = dict(id=ids[k], beh=["ok", "err", "panic"][(i + k) % 3])
+        if i % 4 == 1:      # one call names a step the plugin does not have (its error must reach that call only)
+            runs[0] = dict(id=ids[0], beh="ok", echo=1 + i % 9, step="nosuch")
+        if i % 4 == 2:      # the all-optional step: nil, {}, partial and wrong-typed inputs
+            runs[-1] = dict(id=ids[-1], beh="ok", echo=1 + (i // 4) % 7, step="opt")
         shape = i % 4
         if shape == 0:
             phases = [ids]
